@@ -133,10 +133,10 @@ def hyps_coverage(ctx, stream, ops):
     re-confirmation of their conclusion there (driver stream `hyps`, Lean side only)."""
     out = os.path.join(ctx.work, "%s.hyps.out" % stream)
     if ctx.tier == "quick":
-        # evaluating the decidable hypotheses is the slowest step of the run: quick tier samples the first 500 cases
+        # evaluating the decidable hypotheses is the slowest step of the run: quick tier samples the first 400 cases
         head = os.path.join(ctx.work, "%s.hyps.ops" % stream)
         with open(head, "w") as f:
-            for c in list(_cases(ctx.read_lines(ops)))[:500]:
+            for c in list(_cases(ctx.read_lines(ops)))[:400]:
                 f.write("\n".join(c) + "\n")
         ops = head
     rc, err = ctx.drv("hyps", ops, out)
@@ -211,7 +211,7 @@ def run(ctx):
         return
     if not ctx.go_build():
         return
-    n = {"compile": ctx.n(1800, 30000), "requests": ctx.n(1500, 30000), "tcp": ctx.n(900, 15000)}
+    n = {"compile": ctx.n(1500, 30000), "requests": ctx.n(1200, 30000), "tcp": ctx.n(700, 15000)}
     for stream in STREAMS:
         ctx.diff_stream(stream, n[stream], oracle=oracle, nontrivial=nontrivial)
     for stream in STREAMS:
